@@ -181,8 +181,9 @@ class Repo:
 
 # ------------------------------------------------------------------------------- callable wrappers
 class TypeTok:
-    def __init__(self, name):
+    def __init__(self, name, attrs=None):
         self.name = name
+        self.attrs = attrs or {}
 
     def __repr__(self):
         return f"<type {self.name}>"
@@ -420,6 +421,21 @@ class Interp:
         s.set('timeout', self.feas_timeout)
         s.add(*ground)
         return s.check() != z3.unsat
+
+    def refutes(self, f, timeout_ms=3000):
+        """True if path condition + library axioms (selection, literals, registered extras) refute f (E-matching only; `unknown` is False)"""
+        try:
+            sv = z3.Solver()
+            sv.set('smt.mbqi', False)
+            sv.set('timeout', timeout_ms)
+            sv.add(*self.pc)
+            sv.add(*sym.COMP.axioms())
+            sv.add(*sym.lit_axioms())
+            sv.add(*sym.EXTRA)
+            sv.add(f)
+            return sv.check() == z3.unsat
+        except z3.Z3Exception:
+            return False
 
     def resolve_bool(self, c):
         """True / False if the path condition decides c (quick check), else None"""
@@ -937,6 +953,15 @@ class Interp:
         if opname == 'Add' and olist_like(cur) and olist_like(rhs) and (isinstance(cur, Obj) or isinstance(rhs, Obj)):
             self.assign(t, olist_concat(cur, rhs), frame)
             return
+        if isinstance(t, ast.Subscript) and self.loops and opname in ('Add', 'Sub'):
+            base = self.ev(t.value, frame)
+            if type(base).__name__ == '_Loc':
+                # frame.loc[row label, column] += g  inside a symbolic loop: commutative accumulation into the column's cell
+                idx = self.ev_index(t.slice, frame)
+                cell = base.cell(self, idx)
+                if cell is not None:
+                    self.accumulate(cell[0], cell[1], rhs if opname == 'Add' else sym.neg(rhs))
+                    return
         if isinstance(t, ast.Subscript) and self.loops:
             # arr[key] += g   inside a symbolic loop: commutative accumulation
             base = self.ev(t.value, frame)
@@ -1487,6 +1512,8 @@ class Interp:
                 from .libmodel import Row
                 return [(df.index.f(k), Row(df, k)) for k in range(n)]
             return None
+        if type(it).__name__ == 'Columns':
+            return list(it.df.cols)
         if isinstance(it, Seg) and it.kind == 'list' and all(not isinstance(s, Family) for s in it.segs):
             out = []
             for s in it.segs:
@@ -1719,6 +1746,9 @@ class Interp:
                 item = (df.index.f(k), Row(df, k))
         else:
             raise Unsupported('symbolic loop over ' + type(it).__name__)
+        if not self.loops and not self.guards and self.refutes(hi > lo):
+            # the range is empty on this path (decided from the path condition and the library axioms): the body never runs
+            return
         lc = LoopCtx(k, z3.And(k >= lo, k < hi) if not (type(it).__name__ == 'SymRows' and extra_guard is not None)
                      else z3.And(k >= lo, k < hi, extra_guard), st.lineno)
         # loop-carried names: read before written in the body, and assigned in the body
